@@ -2,7 +2,7 @@
 C10 — property theorems: bounds lemmas on the index-arithmetic models of `Model/C10.lean`
 (helper lemmas live in `Proofs/C10*.lean`).
 -/
-import Mahotas.Proofs.C10Tables
+import Mahotas.Proofs.C10Hitmiss
 open Mahotas Mahotas.C10
 
 /-! ## general index arithmetic -/
@@ -230,3 +230,47 @@ example : (bboxAccesses 2 3 3).length = 4 ∧ allOk (bboxAccesses 2 3 3) = true 
 example : foldlAccesses 3 2 = [⟨2, 3⟩] ∧ foldlAccesses 3 (-1) = [] ∧ foldlAccesses 3 3 = [] := by decide
 example : (comAccesses 2 1 1 6 6).length = 24 ∧ allOk (comAccesses 2 1 1 6 6) = true ∧
     allOk (comAccesses 2 1 1 6 4) = false := by decide
+
+/-! ## B4 — `hitmiss` -/
+
+/-- **B4, the margin test is sufficient.** For every rank and all shapes of the image and of `Bc`
+(equal rank; even and odd sizes), at every flat index `i < N` whose position `flat_to_pos(i)` passes
+the margin test on every axis (`min(cur[d], dim(d)-cur[d]-1) >= Bc.dim(d)/2`), every neighbour
+`i + delta`, `delta = pos_to_flat(k - centre)` for a coordinate `k` of `Bc`, is a flat index in
+`[0,N)` — so `input.at_flat(i + delta)` is inside the buffer (for a non-contiguous input
+`C10_unravel_inside` then gives a position inside the array). -/
+theorem C10_hitmiss_margin_test_sufficient (shape bshape : List Nat) (i : Nat)
+    (hlen : bshape.length = shape.length) (hi : i < shapeSize shape)
+    (h : hmFirstFail shape bshape (unravelI shape i) = none) :
+    ∀ δ ∈ hmDeltas shape bshape, 0 ≤ (i : Int) + δ ∧ (i : Int) + δ < (shapeSize shape : Int) :=
+  hm_neighbour_ok shape bshape i hi
+    (firstFail_none_fits shape bshape _ hlen (unravelI_length shape i) h)
+
+/-- **B4, the whole loop including the `slack` shortcut.** For every rank ≥ 1 and all shapes of the
+image and of `Bc` with positive axis lengths and equal rank (`Bc` smaller, equal or larger than the
+image, even or odd), the transliterated main loop of `hitmiss` — state `(i, slack)`; margin test only
+when `slack = 0`, skipping `size` elements (stopping at `N`) on failure; after a pass the next
+`slack = dim(last) - Bc.dim(last) + 1` pixels of the row are processed WITHOUT re-testing — only
+dereferences `res.at_flat(i)` with `i < N` and `input.at_flat(i + delta)` with `0 ≤ i + delta < N`,
+and ends through `i == N` within `2N+2` steps (in particular `slack` is never set to a value `≤ 0`,
+which would disable the test for good). The invariant proved: with `slack = 0` the column is `≤ c`
+or beyond `W - bw + c` (`c = Bc.dim(last)/2`), hence the test can only pass at column exactly `c`;
+with `slack > 0` the remaining columns are exactly `x … W - bw + c`, on which the element fits
+(for even `bw` the last of them fails the conservative margin test but still fits). -/
+theorem C10_hitmiss_in_bounds (shape bshape : List Nat) (hne : shape ≠ [])
+    (hlen : bshape.length = shape.length) (hs : ∀ d ∈ shape, 0 < d) (hb : ∀ d ∈ bshape, 0 < d) :
+    (∀ a ∈ (hmRun shape bshape true).1, 0 ≤ a.i ∧ a.i < a.size) ∧
+    (hmRun shape bshape true).2 = true := by
+  have hbne : bshape ≠ [] := by
+    intro e; rw [e] at hlen; exact hne (List.length_eq_zero_iff.mp hlen.symm)
+  obtain ⟨pre, W, rfl⟩ : ∃ pre W, shape = pre ++ [W] :=
+    ⟨shape.dropLast, shape.getLast hne, (List.dropLast_concat_getLast hne).symm⟩
+  obtain ⟨bpre, bw, rfl⟩ : ∃ bpre bw, bshape = bpre ++ [bw] :=
+    ⟨bshape.dropLast, bshape.getLast hbne, (List.dropLast_concat_getLast hbne).symm⟩
+  exact hmRun_ok pre bpre W bw (by simpa using hlen) (fun d hd => hs d (by simp [hd]))
+    (hs W (by simp)) (hb bw (by simp))
+
+/-! non-vacuity (B4): a 4x5 image and an even-sized 2x4 element (the slack covers the column that
+    fails the margin test but fits); without the margin test the model leaves the buffer. -/
+example : (hmRun [4, 5] [2, 4] true).1.length = 52 ∧ allOk (hmRun [4, 5] [2, 4] true).1 = true ∧
+    (hmRun [4, 5] [2, 4] true).2 = true ∧ allOk (hmRun [4, 5] [2, 4] false).1 = false := by decide
